@@ -50,6 +50,9 @@ var c12Payloads = []string{"", "x", "a\r\nb", "\r\n", "\x00", "\x00lead", "trail
 	strings.Repeat("p", 1023), strings.Repeat("q", 1024), strings.Repeat("r", 1025), strings.Repeat("s", 8150), strings.Repeat("t", 8191), strings.Repeat("u", 8192), strings.Repeat("v", 8193), strings.Repeat("w", 16384), "\xff\xfe binary"}
 
 func genC12(r *Rng, tier string, idx int) *Plan {
+	if idx%8 == 0 {
+		return genC12Readers(r, tier)
+	}
 	if idx%8 == 4 {
 		// connections issuing SELECT/SWAPDB/FLUSH*/HELLO and data commands concurrently, scheduled by the dice at
 		// keyspace, store-lock and connection-table-lock granularity: every command must be answered, no deadlock
@@ -85,6 +88,8 @@ func runC12(t *testing.T, p *Plan) *Outcome {
 	switch p.Profile {
 	case "conn":
 		return runConcCore(t, p, "C12")
+	case "readers":
+		return runC12Readers(t, p)
 	case "stream":
 		return runC12Stream(t, p)
 	case "garbage":
